@@ -54,9 +54,13 @@ class C02(DiffProperty):
                   "input ring ONE mpt_stream_dispatch hands a message to the handler: streamRecv enlarges by 64 as often as the decoder asks, every round consumes at least 47 "
                   "bytes of the frame -- C02_ring_round_progress, C02_ring_dispatch_policy_delivers, C02_stream_recv_delivers; C02_glue_dispatch_all: when the unread bytes of the input "
                   "ring are the frames of n messages, n dispatches hand over exactly the next n completed messages and nothing is left), and per step for the transport (C02_glue_flush_all, C02_glue_poll_progress: with a kernel "
-                  "that takes what it is offered a flush empties the finished part of the output ring and a poll loads at least one byte); that a whole drain composes these steps "
-                  "to the end is decided against the specification only (two stall defects of exactly this kind were found by the "
-                  "thorough tier and by the input-object cases, and repaired: one enlargement only; the stream input returning MissingBuffer to the event loop); "
+                  "that takes what it is offered a flush empties the finished part of the output ring and a poll loads at least one byte); and END TO END through the glue "
+                  "(GlueDrain.v): C02_dispatch_iff_frame_arrived (any reachable state: a dispatch hands over a message iff a delimiter is unread or a message is held, "
+                  "exactly one less is available afterwards), C02_quiet_world_delivered_all (nothing finished in the output ring, nothing in flight, no delimiter unread "
+                  "=> handed over = completed), C02_drain_round_progress, C02_drain_delivers_all, C02_history_drain_complete (after ANY glue history from fresh streams "
+                  "under ANY kernel behaviour a final drain hands over exactly the completed messages). What stays an assumption is the transport itself: that a real "
+                  "writev/readv eventually takes what it is offered (two stall defects inside the glue were found by the thorough tier and by the input-object cases "
+                  "before these theorems existed, and repaired: one enlargement only; the stream input returning MissingBuffer to the event loop); "
                   "(2) not modelled: poll() paths with a timeout, POLLOUT handling, memory-mapped and text-mode "
                   "streams. The glue model is tied to the code by differential execution with scripted transfers (three defects were found in the glue and repaired). "
                   "Theorems closed under the global context.")
